@@ -183,6 +183,7 @@ type vfWork struct {
 	reg     [2]*vfStreamReg
 	accDone [2]chan struct{}
 	maxBuf  int
+	drainBuf []byte
 }
 
 type vfStreamReg struct {
@@ -300,8 +301,16 @@ func (w *vfWork) addStream(cfg vfStreamCfg, inc int) *vfStreamRun {
 		wDone: make(chan struct{}), rDone: make(chan struct{}), resume: make(chan struct{}),
 	}
 	w.runs = append(w.runs, run)
-	go w.writer(run)
-	go w.reader(run)
+	if s.spec.Link.Lockstep && s.spec.x("lockstep_app", 0) == 1 {
+		w.writer(run) // only registers scheduled events
+		close(run.rDone)
+		if s.net.afterSettle == nil {
+			s.net.afterSettle = w.drainReads
+		}
+	} else {
+		go w.writer(run)
+		go w.reader(run)
+	}
 
 	return run
 }
@@ -361,7 +370,77 @@ func (w *vfWork) opener(sid uint16) int {
 	return 1
 }
 
+// lockstepWriter issues the run's writes as scheduled events of the lock-step link driver, so that the
+// order of application actions relative to packet deliveries is a pure function of the scenario.
+func (w *vfWork) lockstepWriter(run *vfStreamRun) {
+	s := w.sim
+	side := run.wside
+	a := s.getAssoc(side)
+	st, _ := w.reg[side].get(run.cfg.SID)
+	if st == nil {
+		var err error
+		st, err = a.OpenStream(run.cfg.SID, PayloadTypeWebRTCBinary)
+		if err != nil {
+			close(run.wDone)
+
+			return
+		}
+		w.reg[side].put(run.cfg.SID, st)
+	}
+	run.mu.Lock()
+	run.wStream = st
+	run.mu.Unlock()
+	st.SetReliabilityParams(run.cfg.Unordered, run.cfg.RelType, run.cfg.RelVal)
+	rnd := vfNewRand(vfHash(run.key, 0x77))
+	maxPayload := int(a.maxPayloadSize)
+	maxMsg := int(a.MaxMessageSize())
+	gap := time.Duration(run.cfg.GapUs) * time.Microsecond
+	if gap <= 0 {
+		gap = 200 * time.Microsecond
+	}
+	at := s.net.now() + time.Millisecond + time.Duration(run.cfg.SID)*time.Microsecond + time.Duration(run.cfg.Dir)*500*time.Nanosecond
+	for i := 0; i < run.cfg.NMsgs; i++ {
+		i := i
+		size := vfPickSize(run.cfg.SizeMode, rnd, maxPayload, maxMsg)
+		ppi := vfPPIs[rnd.Intn(len(vfPPIs))]
+		dcep := run.cfg.DCEPEvery > 0 && i%run.cfg.DCEPEvery == run.cfg.DCEPEvery-1
+		if dcep {
+			ppi = 50
+		}
+		last := i == run.cfg.NMsgs-1
+		s.net.schedule(at, func() {
+			msg := vfMakeMsg(run.key, i, size)
+			rec := vfWriteRec{Idx: i, Size: size, PPI: ppi, Hash: vfMsgHash(ppi, msg), Unordered: run.cfg.Unordered, RelType: run.cfg.RelType, RelVal: run.cfg.RelVal, DCEP: dcep}
+			rec.CallT = s.net.now()
+			_, err := st.WriteSCTP(msg, PayloadProtocolIdentifier(ppi))
+			rec.RetT = s.net.now()
+			rec.Err, rec.Accepted = err, err == nil
+			run.mu.Lock()
+			run.writes = append(run.writes, rec)
+			run.mu.Unlock()
+			if err == nil {
+				run.nWrit.Add(1)
+			}
+			if last {
+				if run.cfg.Close {
+					_ = st.Close()
+				}
+				close(run.wDone)
+			}
+		})
+		at += gap
+	}
+	if run.cfg.NMsgs == 0 {
+		close(run.wDone)
+	}
+}
+
 func (w *vfWork) writer(run *vfStreamRun) {
+	if w.sim.spec.Link.Lockstep && w.sim.spec.x("lockstep_app", 0) == 1 {
+		w.lockstepWriter(run)
+
+		return
+	}
 	defer close(run.wDone)
 	s := w.sim
 	side := run.wside
@@ -595,6 +674,54 @@ func (w *vfWork) waitDrained(limit time.Duration) bool {
 	}
 
 	return false
+}
+
+// drainReads (lock-step application mode): read everything that is readable on every stream, in a fixed
+// order, without ever blocking. Runs on the link driver after each settle.
+func (w *vfWork) drainReads() {
+	if w.drainBuf == nil {
+		w.drainBuf = make([]byte, w.maxBuf)
+	}
+	buf := w.drainBuf
+	for _, run := range w.runs {
+		run.mu.Lock()
+		rs := run.rStream
+		ended := run.readEnd != nil
+		run.mu.Unlock()
+		if rs == nil {
+			st, _ := w.reg[1-run.wside].get(run.cfg.SID)
+			if st == nil {
+				continue
+			}
+			run.mu.Lock()
+			run.rStream = st
+			run.mu.Unlock()
+			rs = st
+		}
+		if ended {
+			continue
+		}
+		for {
+			rs.lock.RLock()
+			readable := rs.reassemblyQueue.isReadable()
+			rerr := rs.readErr
+			rs.lock.RUnlock()
+			if !readable {
+				if rerr != nil {
+					w.recordRead(run, nil, 0, 0, rerr)
+				}
+
+				break
+			}
+			n, ppi, err := rs.ReadSCTP(buf)
+			if err != nil {
+				w.recordRead(run, nil, 0, 0, err)
+
+				break
+			}
+			w.recordRead(run, buf[:n], uint32(ppi), n, nil)
+		}
+	}
 }
 
 // readersIdle: no stream holds a complete, readable message that its reader has not fetched yet.
